@@ -367,9 +367,31 @@ class SoftwareSwitchBase (object):
 
     body = handler(ofp, connection=connection)
     if body is not None:
-      reply = ofp_stats_reply(xid=ofp.xid, type=ofp.type, body=body)
-      self.log.debug("Sending stats reply %s", reply)
-      self.send(reply)
+      parts = self._split_stats_body(body)
+      for i,part in enumerate(parts):
+        reply = ofp_stats_reply(xid=ofp.xid, type=ofp.type, body=part)
+        if i < len(parts) - 1:
+          reply.flags |= OFPSF_REPLY_MORE
+        self.log.debug("Sending stats reply %s", reply)
+        self.send(reply)
+
+  @staticmethod
+  def _split_stats_body (body, limit = 0xffff - 12):
+    """
+    Splits a list of stats entries so that each part fits in one message
+    """
+    if not isinstance(body, (list, tuple)) or len(body) < 2:
+      return [body]
+    parts = [[]]
+    size = 0
+    for entry in body:
+      n = len(entry.pack())
+      if parts[-1] and size + n > limit:
+        parts.append([])
+        size = 0
+      parts[-1].append(entry)
+      size += n
+    return parts
 
   def _rx_set_config (self, config, connection):
     self.miss_send_len = config.miss_send_len
